@@ -166,7 +166,9 @@ func (core *JApiCore) processEOF() *jerr.JApiError {
 	if je := core.processCurrentDirective(); je != nil {
 		return je
 	}
-	if core.HasUnclosedExplicitContext() {
+	// An included file may end inside an explicit context opened by an including
+	// file: what has to be closed is checked at the end of the root file.
+	if core.scannersStack.Empty() && core.HasUnclosedExplicitContext() {
 		return core.japiError(jerr.ContextNotClosed, core.scanner.CurrentIndex()-1)
 	}
 	return nil
